@@ -17,7 +17,7 @@ MANIFEST = dict(
     technique='Coq proof (loop invariants with fuel, bit-level rewriting, integer arithmetic over N/Z, finite sweeps by vm_compute) about '
               'algorithm-faithful hand models of the rendered C, C++ and Python support code; extracted-model vs. implementation '
               'correspondence on exhaustive small-parameter sweeps; independent big-integer oracle as falsifier',
-    text='47 theorems/examples in coq/theories/Properties/C14.v, each for EVERY offset, length, buffer, declared size and value (no '
+    text='51 theorems + 5 examples in coq/theories/Properties/C14.v, each for EVERY offset, length, buffer, declared size and value (no '
          'bound; preconditions of the code\'s contract as guards). C (both target_endianness renderings): nunavutCopyBits copies '
          'exactly the addressed bits, leaves every other bit untouched, no out-of-range access (memmove path and bit loop); '
          'SaturateBufferFragmentBitLength; GetBits zero-extends and zero-pads; SetUxx/SetIxx/SetBit report a too-small buffer iff '
@@ -28,9 +28,10 @@ MANIFEST = dict(
          'faithful, monotone, 0x7C00 exactly from 65520 on, inf/NaN preserved. C++ bitspan: copyTo with its clamp, setZeros zeroes exactly '
          '[offset, offset+length) (the fixed source; the old under-zeroing witness offset 7 length 2 is in the corpus), '
          'padAndMoveToAlignment, the three subspans, set/get members proved equal to the C functions. Python: Serializer invariant '
-         '"bits at or after the cursor are zero"; add_unaligned_bytes/unsigned/signed/bit, add_aligned_bytes/unsigned/signed, '
-         'pad_to_alignment append exactly the value\'s bits; Deserializer fetch_(un)aligned_bytes/unsigned/signed/bit return the bits at '
-         'the cursor of the zero-extended buffer. Tie: extracted models vs. the headers/module rendered by nnvg from /repo (C any/little/'
+         '"bits at or after the cursor are zero"; add_unaligned_bytes/unsigned/signed/bit/array_of_bits, add_aligned_bytes/unsigned/'
+         'signed/u8..u64/i8..i64/array_of_bits, pad_to_alignment append exactly the value\'s bits; Deserializer '
+         'fetch_(un)aligned_bytes/unsigned/signed/bit/array_of_bits, fetch_aligned_u8..i64 return the bits at the cursor of the '
+         'zero-extended buffer; fork_bytes of both works on a window of the same bytes. Tie: extracted models vs. the headers/module rendered by nnvg from /repo (C any/little/'
          'big x asserts on/off, gcc + clang ASan/UBSan; C++14 (17, 20 thorough) x asserts, g++ + clang++ ASan; Python with NumPy) on the '
          'same calls / operation sequences, return values and full buffers with guard bytes compared; thorough: C vs C++ vs NumPy '
          'natively on all 2^32 binary32 inputs.',
@@ -41,9 +42,10 @@ MANIFEST = dict(
          'x.view(uint8), struct.pack/unpack "<e|f|d" by their documented semantics; extraction (ExtrOcamlBasic only) + '
          'ocaml/c14_driver.ml; the drivers tools/harness/c14_*; gcc 12 / clang 14 sanitizers; CPython 3.12 / NumPy 2.5.3. Rounding: C/C++ '
          'pack ties away from zero, Python (struct) ties to even - both allowed by C14 (nearest or adjacent); the difference is C03\'s '
-         'F-F16-TIE, not a C14 finding. Not covered: big-endian hosts; overlapping src/dst in copy (documented UB); Python '
-         'add_aligned_u8..u64/i8..i64, (un)aligned arrays of bits / of standard primitives, fork_bytes, fetch_aligned_u8..i64 and '
-         'float fetch/add are modelled and tied by correspondence but have no theorem; behaviour of the Python Serializer outside its '
+         'F-F16-TIE, not a C14 finding. Not covered: big-endian hosts; overlapping src/dst in copy (documented UB); Python arrays of '
+         'standard primitives (x.view(uint8)) and float add/fetch reduce to the byte methods through NumPy/struct semantics that are '
+         'assumed, not proved; fetch_aligned_array_of_bits and C/C++ Set/GetF16/32/64 wrappers are modelled and tied by correspondence '
+         'but have no separate theorem; behaviour of the Python Serializer outside its '
          'capacity contract (a 1-byte aligned write past the end is silently dropped by NumPy broadcasting - observed, outside the '
          'documented contract); cetl flavour (cannot be compiled offline).',
     design='§5 C14')
